@@ -1442,3 +1442,10 @@ pub mod prio3;
 #[cfg_attr(docsrs, doc(cfg(feature = "test-util")))]
 pub mod prio3_test;
 pub mod xof;
+
+// Verification hook: harness sources kept outside this repository, compiled only by cargo-kani with
+// the `prio_verif` feature, mounted here so that they can reach this module's private items.
+#[cfg(all(kani, feature = "prio_verif"))]
+mod verif_harness {
+    include!(concat!(env!("PRIO_VERIF_DIR"), "/in_vdaf.rs"));
+}
